@@ -1,9 +1,11 @@
 // C09 — Verus contracts for metrics-exporter-dogstatsd/src/writer.rs.
 // Everything between //@ITEM and //@END is replaced, on every run, by the item's text taken verbatim from
 // /repo's working tree, with the listed clauses spliced in.  Everything else is specification.
+#![feature(allocator_api)]
 #![allow(unused_imports, dead_code, unused_variables, unused_mut)]
 use vstd::prelude::*;
 use std::slice::Iter;
+use std::alloc::Allocator;
 use vstd::string::StringSliceAdditionalSpecFns;
 
 verus! {
@@ -160,6 +162,21 @@ pub mod ryu {
 #[verifier::external_type_specification]
 #[verifier::external_body]
 pub struct ExChain<A, B>(std::iter::Chain<A, B>);
+
+#[verifier::reject_recursive_types(A)]
+#[verifier::reject_recursive_types(T)]
+#[verifier::external_type_specification]
+#[verifier::external_body]
+pub struct ExDrain<'a, T: 'a, A: Allocator>(std::vec::Drain<'a, T, A>);
+
+// R2f: `V.drain(..)` -> `shim_drain_all(&mut V)`: ASSUMED std contract of Vec::drain(..): yields all elements in order, and the
+// vector is empty once the Drain is gone
+#[verifier::external_body]
+pub fn shim_drain_all<'a>(v: &'a mut Vec<usize>) -> (d: std::vec::Drain<'a, usize>)
+    ensures remaining(&d) == old(v)@, final(v)@ == Seq::<usize>::empty(),
+{
+    v.drain(..)
+}
 
 // R2c: `A.chain(B)` -> `shim_chain(A, B)` (Iterator::chain is a provided trait method: no assume_specification possible)
 #[verifier::external_body]
@@ -805,6 +822,146 @@ impl PayloadWriter {
 //@END
 
 
+}
+
+
+
+// ------------------------------------------------------------------ Payloads (the draining iterator of one flush cycle)
+//@ITEM file=metrics-exporter-dogstatsd/src/writer.rs sel=struct Payloads
+//@END
+
+//@IF file=metrics-exporter-dogstatsd/src/writer.rs sel=struct Payloads contains=with_length_prefix
+/// framing mode the Payloads value was created for (abstraction function over the struct's own field)
+spec fn payloads_mode(p: &Payloads) -> bool { p.with_length_prefix }
+//@ELSE
+/// framing mode the Payloads value was created for; the struct keeps no record of it, so this is a ghost attribute
+uninterp spec fn payloads_mode(p: &Payloads) -> bool;
+//@ENDIF
+
+impl<'a> Payloads<'a> {
+    /// offsets still to be yielded are increasing, start at or after `start`, and lie inside the buffer
+    spec fn pwf(&self) -> bool {
+        let r = remaining(&self.offsets);
+        &&& forall|i: int| 0 <= i < r.len() ==> self.start <= #[trigger] r[i] <= self.buf@.len()
+        &&& forall|i: int, j: int| 0 <= i <= j < r.len() ==> r[i] <= r[j]
+    }
+
+//@ITEM file=metrics-exporter-dogstatsd/src/writer.rs sel=impl<'a> Payloads<'a> :: fn len ret=r
+//@REWRITE R2e self.offsets.len() ==> shim_exact_len(&self.offsets)
+//@SPEC
+    ensures r == remaining(&self.offsets).len(),
+//@END
+
+//@ITEM file=metrics-exporter-dogstatsd/src/writer.rs sel=impl<'a> Payloads<'a> :: fn next_payload ret=r
+//@REWRITE R2 self.offsets.next()? ==> shim_next(&mut self.offsets)?
+//@SPEC
+    requires old(self).pwf(),
+    ensures
+        final(self).pwf(),
+        *final(final(self).buf) == *final(old(self).buf),
+        *final(self).buf == *old(self).buf,
+        payloads_mode(final(self)) == payloads_mode(old(self)),
+        match r {
+            Some(s) => {
+                let rest = remaining(&old(self).offsets);
+                &&& rest.len() > 0
+                &&& s@ == old(self).buf@.subrange(old(self).start as int, rest[0] as int)   // exactly the next frame
+                &&& final(self).start == rest[0]
+                &&& remaining(&final(self).offsets) == rest.skip(1)
+            },
+            None => remaining(&old(self).offsets).len() == 0 && remaining(&final(self).offsets).len() == 0
+                && final(self).start == old(self).start,
+        },
+//@END
+
+// R9: `impl Drop for Payloads { fn drop }` is verified as an inherent method (vstd's Vec::clear carries no `no_unwind`, which Verus
+// demands inside Drop); the text of `fn drop` is taken verbatim from the Drop impl.
+//@ITEM file=metrics-exporter-dogstatsd/src/writer.rs sel=impl<'a> Drop for Payloads<'a> :: fn drop
+//@SPEC
+    ensures
+        *final(final(self).buf) == *final(old(self).buf),
+        // the buffer is left ready for the next flush cycle: empty, plus the placeholder of the first payload in length-prefixed mode
+        final(self).buf@ == (if payloads_mode(old(self)) { seq![0u8, 0u8, 0u8, 0u8] } else { Seq::<u8>::empty() }),
+//@END
+}
+
+impl PayloadWriter {
+//@ITEM file=metrics-exporter-dogstatsd/src/writer.rs sel=impl PayloadWriter :: fn payloads ret=r
+//@REWRITE R2f self.offsets.drain(..) ==> shim_drain_all(&mut self.offsets)
+//@SPEC
+    requires old(self).wf(), old(self).tail().len() == 0,
+    ensures
+        r.pwf(), r.start == 0,
+        *r.buf == old(self).buf,
+        remaining(&r.offsets) == old(self).offsets@,
+        payloads_mode(&r) == old(self).with_length_prefix,
+        final(self).buf == *final(r.buf),
+        final(self).offsets@ == Seq::<usize>::empty(),
+        final(self).max_payload_len == old(self).max_payload_len,
+        final(self).with_length_prefix == old(self).with_length_prefix,
+//@BEFORE 1 Payloads {
+        proof {
+            assert forall|i: int, j: int| 0 <= i <= j < self.offsets@.len() implies self.offsets@[i] <= self.offsets@[j] by {
+                self.lemma_mono(i, j);
+            }
+            assert forall|i: int| 0 <= i < self.offsets@.len() implies self.offsets@[i] <= self.buf@.len() by {
+                assert(self.off(i) <= self.buf@.len());
+            }
+        }
+//@END
+
+    /// One flush cycle as the forwarder runs it (caller harness, checked against the callee contracts only):
+    /// every committed frame is handed out exactly once, in order, and afterwards the writer is as good as new.
+    fn verif_flush_cycle(&mut self) -> (n: usize)
+        requires old(self).wf(), old(self).tail().len() == 0,
+        ensures final(self).wf(), final(self).nframes() == 0, final(self).tail().len() == 0,
+            n == old(self).nframes(),
+            final(self).max_payload_len == old(self).max_payload_len,
+            final(self).with_length_prefix == old(self).with_length_prefix,
+    {
+        let ghost w0 = *self;
+        let committed = self.offsets.len();   // (harness only) a Vec's length is a usize
+        let mut p = self.payloads();
+        let n = verif_drain(&mut p, Ghost(w0));
+        p.drop();   // what Rust runs when `p` goes out of scope
+        n
+    }
+}
+
+/// caller harness: pull payloads until None; each one is exactly the next committed frame of the writer snapshot `w0`
+fn verif_drain<'a>(p: &mut Payloads<'a>, Ghost(w0): Ghost<PayloadWriter>) -> (n: usize)
+    requires w0.nframes() <= usize::MAX, old(p).pwf(), w0.wf(), old(p).start == 0, *old(p).buf == w0.buf, remaining(&old(p).offsets) == w0.offsets@,
+    ensures
+        n == w0.nframes(),
+        *final(final(p).buf) == *final(old(p).buf),
+        *final(p).buf == *old(p).buf,
+        payloads_mode(final(p)) == payloads_mode(old(p)),
+{
+    let mut n: usize = 0;
+    loop
+        invariant
+            p.pwf(), n <= w0.nframes(), w0.wf(), w0.nframes() <= usize::MAX,
+            remaining(&p.offsets) == w0.offsets@.skip(n as int),
+            p.start == w0.off(n as int - 1),
+            *p.buf == w0.buf,
+            *final(p.buf) == *final(old(p).buf),
+            payloads_mode(p) == payloads_mode(old(p)),
+        ensures n == w0.nframes(),
+        decreases remaining(&p.offsets).len(),
+    {
+        match p.next_payload() {
+            Some(frame) => {
+                proof {
+                    assert(n < w0.nframes());
+                    assert(frame@ == w0.frame(n as int));      // the n-th committed frame, header included
+                    assert(w0.offsets@.skip(n as int).skip(1) =~= w0.offsets@.skip(n as int + 1));
+                }
+                n = n + 1;
+            }
+            None => { break; }
+        }
+    }
+    n
 }
 
 } // verus!
